@@ -41,7 +41,11 @@ PROPERTIES = {
                         "for every way a Frame can sit in a Go value (by value, pointer, struct field, slice/map element, "
                         "interface) is a fact about Go method sets (value vs pointer receiver), not expressible in the "
                         "Gallina model; it is observed on every run by the 'C-' lines (9 container kinds: document must carry "
-                        "exactly the JSON() text, decoding back must give the identical frame).",
+                        "exactly the JSON() text, decoding back must give the identical frame). Likewise 'the returned []byte is "
+                        "not shared with later calls' (no aliasing of a pooled/global buffer) is a property of Go memory, outside "
+                        "the functional model; it is observed by the 'A-'/'AC-' lines (results retained across further calls, "
+                        "sequentially and from 4 goroutines), and 'a decode does not depend on what the destination held' by the "
+                        "'RS-'/'RJ-' lines (for the model it is a theorem: C15_result_independent_of_destination).",
         "technique": "Coq proof about a Gallina model + differential correspondence of model and code",
         "design_ref": "5.16",
     },
@@ -52,13 +56,18 @@ RULES = {
            "random with unused bytes set, remote, remote-with-data}, extended IDs boundary + 29 one-hot + one-cold + random, "
            "invalid frames (ID out of range, length 9..255); every printed text is parsed back (U) and every successfully "
            "parsed frame printed again. U: fixed list of edge strings, every byte value at 10 inspected positions, "
-           "pattern-derived strings (upper/lower/mixed), 1-2 random edits of them, random bytes. O-: direct observations of "
+           "pattern-derived strings (upper/lower/mixed), 1-2 random edits of them, random bytes. RS: two texts parsed into the SAME "
+           "destination (long data frame then shorter / remote, valid then malformed and vice versa) vs. a fresh destination. O-: direct observations of "
            "strconv.ParseUint/Atoi/Itoa, hex.Decode/Encode, fmt %03X/%08X, strings.Split/ToUpper. non-trivial = all; "
            "distinct by line hash",
     "C16": "J/D/M/E: frames as C15 (JSON(), json.Valid, MarshalJSON==JSON(), UnmarshalJSON of the output, json.Marshal inside "
            "[]Frame, decoding inside an array and a struct); C: every 4th frame (thorough: every frame) marshalled and decoded "
            "back through encoding/json as a Frame by value, *Frame, struct{Frame;*Frame} by value and by pointer, []Frame, "
-           "[]*Frame, map[string]Frame, interface{} holding a Frame, []interface{} holding a Frame and a []Frame; D: fixed edge documents (top-level non-objects, duplicates, "
+           "[]*Frame, map[string]Frame, interface{} holding a Frame, []interface{} holding a Frame and a []Frame; A: triples of "
+           "random valid frames: MarshalJSON() results retained while further frames are marshalled (also json.Marshal twice in "
+           "sequence); AC: 4 goroutines x 200 MarshalJSON()+json.Marshal calls on distinct frames, every result seen must be the "
+           "frame's JSON form; RJ: two documents decoded into the SAME destination (long data frame then shorter, valid then "
+           "malformed and vice versa) vs. a fresh destination; D: fixed edge documents (top-level non-objects, duplicates, "
            "case-folded / escaped keys, escapes and non-ASCII in data, data of 8/9/255/256/257 bytes, nesting 9999..10001, "
            "trailing garbage, BOM), all 9x11x10x7x7 member-value combinations (absent/null/right/wrong type) with shuffled "
            "order and random whitespace, number / string literal tables in every member position, random member documents, "
@@ -77,9 +86,9 @@ def replay_args(replay):
     import json
     obs = json.load(open(replay)).get("replay", {}).get("observation", "")
     parts = obs.split()
-    if not parts or parts[0] not in ("S", "U", "J", "M", "D", "E", "C"):
+    if not parts or parts[0] not in ("S", "U", "J", "M", "D", "E", "C", "A", "AC", "RS", "RJ"):
         return None
-    return ["one", parts[0]] + parts[1:3]
+    return ["one", parts[0]] + parts[1:4]
 
 
 def run(res, replay=None):
